@@ -1,5 +1,6 @@
 /* exitsig exit N  -> exits with status N
  * exitsig sig N   -> kills itself with signal N (default disposition restored)
+ * exitsig linger N -> exits with status N while a forked child keeps the inherited stdout/stderr open for 2 s
  * optional third argument: text written to stdout first */
 #include <signal.h>
 #include <stdio.h>
@@ -22,6 +23,12 @@ int main(int argc, char **argv) {
         kill(getpid(), n);
         sleep(5);
         return 251;
+    }
+    if (strcmp(argv[1], "linger") == 0) {
+        /* exits with status N straight away while a child that inherited stdout / stderr lives on for 2 s */
+        pid_t pid = fork();
+        if (pid == 0) { sleep(2); _exit(0); }
+        return n;
     }
     return 252;
 }
